@@ -171,7 +171,11 @@ def signature(case, verdict):
     tin = parts_of(case)[1].split()
     container = len(tin) > 1 and tin[1] in ("ML", "MP", "MY", "GC")      # BufferBuilder::buffer takes the per-part path for these
     if selfx or f.get("closed") == "1" or (mode == "ss" and (parts > 1 or container or f.get("near") == "1")):
-        # single-sided buffers / offset curves of linework that is closed, not simple or multi-part: one class per call
+        # single-sided buffers / offset curves of linework that is closed, not simple or multi-part: one class per call — for the SHAPE of
+        # the result (the recorded mechanisms: largest polygonized face, defective ring buffer, heuristic NULLs).  A result that is not even a
+        # valid geometry is a different matter and gets its own key
+        if clause == "invalid":
+            return {"mode": mode, "clause": "invalid", "simpleOpenLines": False}
         return {"mode": mode, "simpleOpenLines": False}
     if tiny:
         return {"mode": mode, "simpleOpenLines": True, "dTiny": True}
